@@ -32,7 +32,7 @@ func runC08(c *Ctx) {
 	c.rule("shutdown-checked-first", "a caller-goroutine function that blocks on a send to the callback queue first polls the monitor's shutdown channel without blocking and fails when it is closed (a select between a closed channel and a send on a buffered queue picks at random, so a call issued after shutdown would report success half the time)", 1)
 	c.rule("unregister-handshake", "(shared with C06) the unregister arm rebuilds the handle list without mutating it in place and closes the done channel on every path (a second unregister of the same handle must be answered too), and the API returns true only after that acknowledgement", 4)
 	c.rule("monitor-ops-bounded", "in the functions the monitor goroutine calls, every channel operation is non-blocking except the single answer on a roomy reply channel", 2)
-	c.rule("asserts-guarded", "on the background goroutines' call paths every unchecked type assertion asserts the compose result under a nil compose error (at every call site for a helper's parameter)", 2)
+	c.rule("asserts-guarded", "on the background goroutines' call paths every unchecked type assertion asserts the compose result under a nil compose error (at every call site for a helper's parameter)", 1)
 	c.rule("exit-on-fresh-scan", "the monitor leaves its loop on a Done event only on a scan of the slots' watching bits made for that event, never on state carried across events", 1)
 	c.rule("cbloop-drains", "the callback loop's exit is the drained-queue exit (non-blocking receive found nothing), so it neither leaks nor drops queued unregister acknowledgements while alive", 1)
 	c.rule("goroutines-lock-free", "functions reachable from the monitor and callback roots acquire no mutex and invoke no Source/Watcher/Decoder method", 2)
@@ -194,11 +194,15 @@ func runC08(c *Ctx) {
 					okp = true
 					break
 				}
-				if _, isCall := j.(*ssa.Call); isCall {
+				if cj, isCall := j.(*ssa.Call); isCall {
+					// ... or the plain Unlock itself, with only loads and stores since the Lock (`mu.Lock(); x := b.f; mu.Unlock()`)
+					if calleeFullName(cj) == want && sameValue(cj.Call.Args[0], ci.Call.Args[0]) {
+						okp = true
+					}
 					break // something else runs before the unlock is registered
 				}
 			}
-			c.check(okp, "lock-pairing", relName(f)+"#lock", ci.Pos(), "Lock followed (same block, nothing called in between) by defer Unlock of the same mutex", "Lock without a directly following deferred Unlock of the same mutex")
+			c.check(okp, "lock-pairing", relName(f)+"#lock", ci.Pos(), "Lock followed (same block, nothing called in between) by defer Unlock of the same mutex, or by the Unlock itself", "Lock without a directly following (deferred) Unlock of the same mutex")
 		}
 	}
 
